@@ -240,7 +240,8 @@ def gen_fault(rng, nnodes=2, elem_size=32):
         if rng.random() < 0.2:
             f["times"] = rng.randrange(1, 4)
     elif kind == "side":
-        f["v"] = rng.randrange(256)
+        f["v"] = rng.choice([0x41, 0x42, 0x53, 0x41, 0x42, 0x53, 0x61, 0x62, 0x73, 0x00, 0xff, 0x43,
+                             rng.randrange(256), rng.randrange(256)])
     elif kind == "substitute":
         f["elem"] = rng.choice(["identity", "base", "M", "N", "S", "kG", "node"])
         f["k"] = rng.randrange(0, 50)
